@@ -958,6 +958,16 @@ class Engine:
             return self.bytes_index(v, s)
         if hasattr(v, '__pyvc_getitem__'):
             return v.__pyvc_getitem__(self, s)
+        if isinstance(s, SBytes) and isinstance(v, dict):
+            cb = self.const_bytes(s)
+            if cb is not None:
+                s = cb
+            else:
+                for k in v:
+                    if isinstance(k, (bytes, bytearray)) and s.concrete_len() and len(k) == s.n:
+                        if self.truth(self.bytes_eq(s, k)):
+                            return v[k]
+                raise RaiseEx(KeyError('symbolic bytes key'))
         if isinstance(v, (bytes, bytearray)) and (isinstance(s, Sym) or (isinstance(s, slice) and has_sym([s.start, s.stop]))):
             return self.getitem(SBytes.from_bytes(bytes(v)), s)
         if isinstance(s, Sym):
@@ -991,13 +1001,32 @@ class Engine:
         for v in n.values:
             if isinstance(v, ast.FormattedValue):
                 x = self.ev(v.value, env, g)
+                if not hasattr(self, '_fstr_cache'):
+                    self._fstr_cache = {}
+                self._fstr_cache[id(v)] = x
                 if has_sym(x) or isinstance(x, Opaque) or v.format_spec is not None or v.conversion != -1:
                     opaque = True
                 else:
                     parts.append(format(x))
             else:
                 parts.append(v.value)
-        return Opaque('<fstr>') if opaque else ''.join(parts)
+        if opaque:
+            # keep the structure when every dynamic part is a string-like ghost (used by ghost string classes)
+            return self._fstr(n, env, g)
+        return ''.join(parts)
+
+    def _fstr(self, n, env, g):
+        items = []
+        for v in n.values:
+            if isinstance(v, ast.FormattedValue):
+                if v.format_spec is not None or v.conversion != -1:
+                    return Opaque('<fstr>')
+                items.append(self._fstr_cache.pop(id(v)))
+            else:
+                items.append(v.value)
+        if all(isinstance(x, str) and not isinstance(x, Opaque) or getattr(x, '__pyvc_strlike__', False) for x in items):
+            return FStr(items)
+        return Opaque('<fstr>')
 
     def e_Lambda(self, n, env, g):
         return Closure(n, env, g)
@@ -1763,6 +1792,18 @@ class HexOf:
         return str in cs
 
 
+class FStr:
+    """an f-string whose dynamic parts are string-like ghosts: list of str | ghost"""
+    __pyvc_symbolic__ = True
+    __pyvc_strlike__ = True
+
+    def __init__(self, items):
+        self.items = items
+
+    def __pyvc_isinstance__(self, cs):
+        return str in cs
+
+
 class IntStr:
     """str(n) of a symbolic int; int(IntStr(n)) == n (assumed inverse pair str/int on decimal spelling)"""
     __pyvc_symbolic__ = True
@@ -1780,6 +1821,20 @@ class IntStr:
 class DecodedStr:
     """bytes.decode() of symbolic bytes; .encode() gives the bytes back (assumed inverse pair, UTF-8 valid)"""
     __pyvc_symbolic__ = True
+    __pyvc_strlike__ = True
+
+    def __pyvc_cmp__(self, eng, op, other, refl):
+        if isinstance(op, (ast.Eq, ast.NotEq)):
+            if isinstance(other, str):
+                r = eng.bytes_eq(self.b, other.encode())
+            elif isinstance(other, DecodedStr):
+                r = eng.bytes_eq(self.b, other.b)
+            else:
+                return NotImplemented
+            if isinstance(op, ast.Eq):
+                return r
+            return Sym(z3.Not(ZB(r))) if isinstance(r, Sym) else (not r)
+        return NotImplemented
 
     def __init__(self, b):
         self.b = b
